@@ -201,6 +201,30 @@ class Program:
                     fixed(k.gotype, k.kids)
         fixed(self.root, self.kids)
 
+        CONC = {'int32': 'int32(fill) * 1000003', 'int64': 'int64(fill) * 1000000007', 'uint32': 'uint32(fill) * 40503', 'uint64': 'uint64(fill) * 2654435761',
+                'float32': 'float32(fill) * 1.5', 'float64': 'float64(fill) * 2.25', 'bool': 'fill%2 == 1', 'string': 'vConcString(vMin1(s)*strLen, fill)'}
+
+        def conc(tname, kids):
+            L = ['func vConc_%s(s int, strLen int, fill byte) %s {' % (tname, tname), '\tvar r %s' % tname]
+            for k in kids:
+                acc = 'r.' + (k.gotype if k.embedded else k.name)
+                if k.excl is not None:
+                    continue
+                gen = CONC[k.typ] if k.is_leaf() else 'vConc_%s(s, strLen, fill)' % k.gotype
+                if k.rep == 'req':
+                    L.append('\t%s = %s' % (acc, gen))
+                elif k.rep == 'opt':
+                    L.append('\tif s > 0 { v := %s; %s = &v }' % (gen, acc))
+                else:
+                    L.append('\tfor i := 0; i < s; i++ { %s = append(%s, %s) }' % (acc, acc, gen))
+            L += ['\treturn r', '}\n']
+            o.append('\n'.join(L))
+            for k in kids:
+                if k.kids is not None and k.excl is None:
+                    conc(k.gotype, k.kids)
+        conc(self.root, self.kids)
+        o.append('func vConcreteRec(s, strLen int, fill byte) vRec { return vConc_%s(s, strLen, fill) }\n' % self.root)
+
         # ---- equality (nil slice == empty slice, floats by bits); excluded members ignored
         def eq_leaf(k, a, b):
             if k.typ == 'float32':
